@@ -34,12 +34,15 @@ Definition curr_of (vs : vslot) : option Z :=
 Definition expiry_of (vs : vslot) : option Z :=
   match item vs with VMax e _ | VMin e _ => Some e | VFree _ => None end.
 
+(** expiry ticks of var timers are results of Time::new_ceil *)
+Definition ex_ok (ex : Z) : Prop := 0 <= ex < 2 ^ 50 /\ ex mod 65536 <= 61036.
+
 (** a live var slot: its current queue key is in the window and its entry is queued *)
 Definition slot_ok (s : tstate) (i : Z) (vs : vslot) : Prop :=
   1 <= gnn vs < M32 /\
   match curr_of vs, expiry_of vs with
   | Some c, Some ex =>
-      now s < c <= now s + WIN /\ 0 <= ex < 2 ^ 50 /\
+      now s < c <= now s + WIN /\ ex_ok ex /\
       exists cb, In (c mod M32, i, cb) (queue s)
   | _, _ => True
   end.
@@ -107,7 +110,7 @@ Definition slot_okH (s : tstate) (hd : list entry) (i : Z) (vs : vslot) : Prop :
   1 <= gnn vs < M32 /\
   match curr_of vs, expiry_of vs with
   | Some c, Some ex =>
-      0 <= ex < 2 ^ 50 /\
+      ex_ok ex /\
       ((now s < c <= now s + WIN /\ exists cb, In (c mod M32, i, cb) (queue s)) \/
        (exists cb, In (c mod M32, i, cb) hd))
   | _, _ => True
